@@ -206,6 +206,12 @@ func (c *Ctx) Exec(id string, nontrivial bool, f func() Verdict) {
 		}
 		return
 	}
+	if strings.Contains(v.Detail, "HARNESS") {
+		// the harness itself objects (model rejects an enumerated configuration, ...): a broken check
+		// (exit 2), never a statement about the property
+		c.Broken("harness problem in case %s: %s", id, v.Detail)
+		return
+	}
 	// a disagreement: re-execute five times, must reproduce identically
 	for i := 0; i < 5; i++ {
 		w, hung := withWatchdog(f, c.CaseTimeout)
